@@ -13,15 +13,16 @@ from vf.core import Ctx
 
 META = {
     "engine": "wire",
-    "text": "TLC enumerates the request-class table of ReqClass.tla (method key x request-version x protocol-version x "
-            "shm segment keys x shm pointer keys x location key x columns x row count x other metadata, plus damaged "
-            "byte strings) and checks the table invariants on it; every emitted class is serialised to real Arrow IPC "
-            "bytes (pyarrow writer, hand-built custom_metadata, real POSIX shared-memory segments incl. foreign and "
-            "non-existent ones) and written by a raw peer on a live connection to the real RpcServer.serve loop "
-            "(pipe and unix socket pairs), followed by a well-formed probe call; every truncation point / seeded byte "
-            "flip of five seed requests is sent the same way and followed by EOF.  TLC judges every recorded "
-            "observation with ReqClass!Conforms (Answered, TypedError, KeepsServing, ProbeOwnAnswer, "
-            "PeerNotLeftWaiting).",
+    "text": "TLC walks the request-class table of ReqClass.tla (connection history x method key x request-version x "
+            "protocol-version x shm segment keys incl. unusable, too small and corrupt ones x shm pointer keys incl. "
+            "regions of another shape x location key x columns incl. undecodable values x row count x other metadata, plus "
+            "damaged byte strings) and checks the table invariants on it; every emitted class is serialised to real Arrow "
+            "IPC bytes (pyarrow writer, hand-built custom_metadata, real POSIX shared-memory segments) and written by a raw "
+            "peer on a live connection to the real RpcServer.serve loop (pipe, unix and tcp pairs, a ShmPipeTransport, and "
+            "a child process behind serve_stdio), after the connection history the class names, followed by a well-formed "
+            "probe call; every truncation point / seeded byte flip of five seed requests is sent the same way and "
+            "followed by EOF.  TLC judges every recorded observation with ReqClass!Conforms (Answered, TypedError, "
+            "KeepsServing, ProbeOwnAnswer, PeerNotLeftWaiting).",
     "note": "Trusted: pyarrow as the oracle of 'is a valid single-batch IPC stream' for damaged bytes (strict framing "
             "incl. EOS marker + full validation); the raw peer's lock-step script (Script in the spec) for stream "
             "methods; watchdog 4 s confirmed by a 10 s rerun; the serve loop is wrapped in the same "
@@ -285,12 +286,13 @@ def run(ctx: Ctx) -> None:
                                     f"table invariants; oracle emitted for <= {k} deviations"))
     cases += table.enumerate_cases(ctx, "wire", "ReqClass", constants={"MaxFaults": k}, cases="Bytes",
                                    expected="ExpectedBytes", name="ReqClass damaged-bytes classes")
-    ctx.exhaustive = True
+    ctx.exhaustive = True       # (the enumeration; see far_isolated_classes_not_executed for what thorough samples)
     ctx.extra["table"] = {"classes_walked": nfull, "full_fresh_connection_product": not quick, "emitted_max_faults": k, "emitted_cases": len(cases)}
     ctx.rule = ("case = one request class of ReqClass!Cases (all classes with at most MaxFaults deviating dimensions x "
-                "all 8 method-key classes; the table invariants are checked on the full product) or one damaged-bytes "
+                "all 9 method-key classes and the connection-history classes; the table invariants are checked on the full product) or one damaged-bytes "
                 "class; non-trivial = distinct (concrete request bytes, server world, transport) executed on a live "
-                "connection to the real serve loop")
+                "connection to the real serve loop; of the classes with >= 3 deviations that need a connection of their own "
+                "(shm keys or a connection history) every third is executed")
     ctx.assume("a header-less stream request is followed by the client's (empty) input stream exactly where the table "
                "says the server consumes it (Script = blind); classes whose acceptance is set-valued at decode time "
                "are not driven for header-less streams (Script = na)",
@@ -359,7 +361,8 @@ def _after_eof(conns: Conns, key, o: dict) -> bool:
 def _run_requests(ctx: Ctx, cases, segs, servers, conns: Conns, obs: list) -> None:
     quick = ctx.quick
     xs = ctx.rng.randrange(10_000, 900_000)
-    n = prelude_failed = 0
+    n = prelude_failed = skipped_far = 0
+    spent: dict = {}
     t0, c0 = time.monotonic(), time.process_time()
     for ci, cj in enumerate(cases):
         case, exp = cj["case"], cj["exp"]
@@ -367,6 +370,9 @@ def _run_requests(ctx: Ctx, cases, segs, servers, conns: Conns, obs: list) -> No
             continue
         shm_case = case["seg"] != "none" or case["ptr"] != "none"
         isolated = shm_case or case["hist"] != "fresh"      # needs a connection of its own (per-connection state)
+        # (a child process per execution is expensive: pointer requests into the good segment share one while it
+        # lives -- the segment it caches is the one every such request names anyway)
+        proc_shared = case["hist"] == "fresh" and case["seg"] == "good"
         nfaults = cj["faults"]
         # number of concrete variants per class: most for the classes next to an ordinary request
         if (nfaults >= 3 and isolated) or (quick and nfaults == 2):   # the many far classes: one execution each
@@ -379,7 +385,7 @@ def _run_requests(ctx: Ctx, cases, segs, servers, conns: Conns, obs: list) -> No
         if case["ptr"] == "mismatch":
             # such bytes can take the whole server process down: only ever sent to a server in a child process
             plan = [("Ve", "subprocess", j) for j in range(1 if nfaults >= 2 else 4)]
-        elif nfaults <= 1:
+        elif nfaults <= 1 and (not isolated or proc_shared or not quick):
             plan.append(("Ve", "subprocess", 6))        # the stdio entry point (serve_stdio) as shipped
         if case["pv"] != "ok":
             plan.append(("ve", "pipe", 4))
@@ -389,6 +395,11 @@ def _run_requests(ctx: Ctx, cases, segs, servers, conns: Conns, obs: list) -> No
             plan += [("Ve", "pipe", 8 + j) for j in range(3 if nfaults <= 1 else 1)] + [("Ve", "unix", 11)]
         if case["ptr"] == "mismatch":
             plan = [(wn_, "subprocess", v_) for wn_, _tr, v_ in plan]
+            if nfaults >= 2 and not proc_shared and ci % (5 if quick else 3):
+                plan = []           # (each of these costs a child process of its own)
+        if nfaults >= 3 and isolated and ci % 3:
+            skipped_far += 1        # the many far classes that need a connection of their own: every third is executed
+            continue
         for wn, tr, v in plan:
             script = exp[wn]["script"]
             if script == "na":
@@ -414,7 +425,9 @@ def _run_requests(ctx: Ctx, cases, segs, servers, conns: Conns, obs: list) -> No
                 o_ = exchange(lv_, conc_["bytes"], script, x, ver, timeout, strict=strict, may_swallow=swal)
                 return o_, conc_, reused_
 
-            o, conc, reused = attempt(isolated, T1, False)
+            alone = isolated and not (tr == "subprocess" and proc_shared)
+            t_ex = time.monotonic()
+            o, conc, reused = attempt(alone, T1, False)
             if o is None:
                 conns.drop((wn, tr))
                 prelude_failed += 1
@@ -432,8 +445,10 @@ def _run_requests(ctx: Ctx, cases, segs, servers, conns: Conns, obs: list) -> No
                         if not (reused and clean(o2)):
                             o = o2
                             reused = False
-            elif isolated:
+            elif alone:
                 conns.drop((wn, tr))
+            tkey = f"{tr}{'/alone' if alone else ''}"
+            spent[tkey] = [spent.get(tkey, [0, 0])[0] + 1, round(spent.get(tkey, [0, 0])[1] + time.monotonic() - t_ex, 2)]
             key = [conc["bytes"].hex() if len(conc["bytes"]) < 4096 else hash(conc["bytes"]), wn, tr]
             ctx.case(key)
             detail = {"case": case, "variant": v, "method": repr(conc["method"]), "metadata": {repr(a): repr(b)[:80] for a, b in conc["md"].items()},
@@ -447,6 +462,8 @@ def _run_requests(ctx: Ctx, cases, segs, servers, conns: Conns, obs: list) -> No
                             "metadata_keys": [repr(a) for a in conc["md"]], "schema": detail["schema"],
                             "table_stage": exp[wn]["stage"], "observed": _tlc_obs(o, wn, tr, True)})
     ctx.extra["prelude_failed"] = prelude_failed
+    ctx.extra["time_by_transport"] = spent
+    ctx.extra["far_isolated_classes_not_executed"] = skipped_far
     ctx.extra["request_executions"] = {"n": n, "wall_s": round(time.monotonic() - t0, 1),
                                        "cpu_s": round(time.process_time() - c0, 1)}
 
